@@ -16,6 +16,8 @@ import itertools
 import pickle
 import sys
 
+import hl7apy
+import hl7apy.core
 from .. import common, sched
 from ..common import Result, libs, STRICT, TOLERANT, HarnessError
 
@@ -83,6 +85,13 @@ def corpus():
     c['parse_adt'] = ('L', lambda v, l: lambda: _parse(ADT % v, l))
     c['validate'] = ('L', lambda v, l: lambda: _validate(v, l))
     # a message with its own delimiters, parsed while another thread parses a standard one
+    # a Z segment added to a message through the child API (its reference is made up on the fly), another name per version
+    c['zseg_add'] = ('X', lambda v, l: lambda: _zseg_add(v, l))
+    # both threads set the default version (to different values), one then makes calls that name their version; afterwards
+    # calls that name their version are probed (see PROBES): they never depend on what the default is or was
+    c['set_default_23'] = ('X', lambda v, l: lambda: hl7apy.set_default_version('2.3'))
+    c['explicit_lib'] = ('X', lambda v, l: lambda: (hl7apy.set_default_version(v), hl7apy.load_library(v).__name__, hl7apy.core.is_base_datatype('TN', v),
+                                                    hl7apy.core.is_base_datatype('DTM', v))[1:])
     c['parse_oru'] = ('X', lambda v, l: lambda: _parse_tree(ORU % v, l))
     c['parse_custom'] = ('X', lambda v, l: lambda: _parse(CUSTOM % v, l))
     return c
@@ -120,6 +129,22 @@ def _dup_group(v, l):
     from hl7apy.core import Group
     g = Group('NMR_N01_CLOCK_AND_STATS_WITH_NOTES_ALT' if v < '2.7' else 'CSU_C09_STUDY_OBSERVATION', version=v, validation_level=l)
     return list(g.ordered_children), sorted(g.structure_by_name), sorted((k, tuple(v_)) for k, v_ in g.repetitions.items())
+
+
+def _zseg_add(v, l):
+    from hl7apy.core import Group
+    g = Group('ADT_A01_INSURANCE', version=v, validation_level=l)
+    z = g.add_segment('ZIN' if v == '2.5' else 'ZBE')
+    return z.name, [c.name for c in g.children]
+
+
+def _explicit_probe():
+    # calls whose arguments name their version: what a finished execution left behind must not change their answers
+    return tuple((hl7apy.load_library(v).__name__, hl7apy.core.is_base_datatype('TN', v), hl7apy.core.is_base_datatype('DTM', v),
+                  len(hl7apy.load_reference('PID', 'Segment', v)[1])) for v in ('2.3', '2.5', '2.7'))
+
+
+PROBES = {('set_default_23', 'explicit_lib'): _explicit_probe}
 
 
 def _message(v, l):
@@ -234,7 +259,7 @@ def deep_digest(versions):
     for v in versions:
         lib = libs()[v]
         h.update(pickle.dumps((lib.MESSAGES, lib.SEGMENTS, lib.FIELDS, lib.DATATYPES, lib.DATATYPES_STRUCTS, lib.GROUPS,
-                               lib.TABLES, sorted(lib.BASE_DATATYPES)), protocol=4))
+                               getattr(lib, 'TABLES', None), sorted(lib.BASE_DATATYPES)), protocol=4))
     return h.hexdigest()
 
 
@@ -283,6 +308,9 @@ def harnesses(tier):
     hs.append((('st_shared_hl', 'st_shared_hl'), mixed, 2, gran))
     hs.append((('st_shared_hl', 'st_er7'), same2, 1, gran))
     hs.append((('dup_names', 'dup_names'), same2, 1, gran))
+    hs.append((('zseg_add', 'zseg_add'), mixed, 1, gran))
+    hs.append((('set_default_23', 'explicit_lib'), same2, 2, gran))
+    hs.append((('set_default_23', 'explicit_lib'), [('2.5', TOLERANT), ('2.3', TOLERANT)], 2, gran))
     for k in range(12):     # one preemption at the entry of every call that touches process-wide data, in 12 shards
         hs.append((('parse_custom', 'parse_oru'), [('2.5', TOLERANT), ('2.5', TOLERANT)], 1, 'shared-entry', (k, 12)))
     hs.append((('dup_names', 'field'), same2, 1, gran))
@@ -373,6 +401,9 @@ def run_unit(unit, tier):
     for m in makers:
         restore_shared(snap0)
         alone.append(obs(m))
+    for a in alone:
+        if a[0] == 'raise' and (a[1] in ('NameError', 'ImportError', 'ModuleNotFoundError') or a[2].startswith("module 'hl7apy")):
+            raise HarnessError('a body of %r fails alone with %s: %s' % (names, a[1], a[2]))
     restore_shared(snap0)
     again = [obs(m) for m in makers]          # one after the other, state left behind by the previous ones included
     restore_shared(snap0)
@@ -382,6 +413,9 @@ def run_unit(unit, tier):
     if alone != again:
         res.violation('%s|sequential-state-dependence' % pair, 'run one after the other in one process the bodies give %r, each '
                       'alone gives %r' % (again, alone), dict(point, choices=None), 0)
+    probe = PROBES.get(tuple(names))
+    probe_alone = obs(probe) if probe else None
+    restore_shared(snap0)
     snap = snapshot_shared()
     fp0 = shallow_fingerprint()
     versions = sorted({v for v, _ in cfgs})
@@ -403,6 +437,11 @@ def run_unit(unit, tier):
                           '%s: under schedule %r thread(s) %r observed %r, alone %r' % (hname, compress(choices), bad,
                                                                                        [got[i] for i in bad], [alone[i] for i in bad]),
                           dict(point, choices=list(choices)), len(choices))
+        if probe is not None:
+            left = obs(probe)
+            if left != probe_alone:
+                res.violation('%s|state-left-behind' % pair, '%s: after the execution under schedule %r calls that name their version answer %r, '
+                              'before it %r' % (hname, compress(choices), left, probe_alone), dict(point, choices=list(choices)), len(choices))
         if shallow_fingerprint() != fp0:
             # a body wrote process-wide state.  Not a violation by itself (a memo would do that): it is recorded, the
             # state is put back so that the next execution starts where this one started, and the harness is explored
